@@ -77,7 +77,7 @@ def run(ctx):
         bb = b if b is not None else fit.bounds
         if not (bb.M[0] <= fit.M_ <= bb.M[1] and bb.tau[0] <= fit.tau_ <= bb.tau[1]):
             bad("fitted M / tau lie outside the configured bounds", dict(**inp, bounds=dict(M=list(bb.M), tau=list(bb.tau))), dict(M=float(fit.M_), tau=float(fit.tau_)))
-        if not (dom.relclose(fit.M_, M, 1e-4) and dom.relclose(fit.tau_, tau, 1e-4)):
+        if not (dom.relclose(fit.M_, M, 2e-3) and dom.relclose(fit.tau_, tau, 2e-3)):  # optimiser tolerance, not rounding
             bad("fitting noise-free production generated from the same curve does not recover M and tau", dict(**inp, window_end_over_tau=end / tau, samples=len(tt), bounds=kind),
                 dict(M=float(fit.M_), tau=float(fit.tau_)))
         # ---------------- supplied tau: returned unchanged, M the bounded least-squares optimum
@@ -90,9 +90,21 @@ def run(ctx):
         r = np.asarray(rf(tt / tau_given), float)
         mstar = min(max(float(r @ y / (r @ r)), lo), hi)
         ev += 1
+        # a supplied tau that lies OUTSIDE the configured tau bounds is still the user's choice
+        for tg in (tau * 3.0, tau / 4.0):
+            fit3 = ForecasterOnePhase(rf, Bounds(M=(M / 50, M * 50), tau=(tau / 2, tau * 2)))
+            with warnings.catch_warnings():
+                warnings.simplefilter("ignore")
+                fit3.fit(tt, y, tau=tg)
+            r3 = np.asarray(rf(tt / tg), float)
+            m3 = min(max(float(r3 @ y / (r3 @ r3)), M / 50), M * 50)
+            ev += 1
+            if fit3.tau_ != tg or not dom.relclose(float(fit3.M_), m3, 1e-4):
+                bad("a supplied tau (outside the configured tau bounds) is not returned unchanged with M the bounded least-squares optimum for it",
+                    dict(**inp, tau_given=tg, tau_bounds=[tau / 2, tau * 2]), dict(tau=float(fit3.tau_), M=float(fit3.M_), optimum=m3))
         if fit2.tau_ != tau_given:
             bad("a supplied tau is not returned unchanged", dict(**inp, tau_given=tau_given), float(fit2.tau_))
-        if not dom.relclose(float(fit2.M_), mstar, 1e-6):
+        if not dom.relclose(float(fit2.M_), mstar, 1e-4):  # the trust-region solver stops a hair inside an active bound
             bad("with tau supplied, M is not the bounded least-squares optimum (clipped sum(r y)/sum(r r))", dict(**inp, tau_given=tau_given, bounds=[lo, hi]),
                 dict(M=float(fit2.M_), optimum=mstar))
     # ---------------- Bounds validation and guess regularisation
